@@ -149,17 +149,18 @@ pub fn record(args: &[String]) {
 
 /// ToZerv.tla: `zerv render` of arbitrary SemVer identifier lists, both output formats
 pub fn replay_tozerv(args: &[String]) {
+    let from = args.get(1).map(|s| s.as_str()).unwrap_or("semver").to_string();
     let mut rep = Report::new("tozerv");
     for case in tlc_lines(&args[0], "REPLAY") {
         let s = cps(&case["s"]);
-        if case["canonical"].as_bool().unwrap() {
+        if case.get("canonical").or(case.get("short")).and_then(|v| v.as_bool()).unwrap_or(false) {
             rep.nontrivial += 1;
         }
         for (to, want) in [("semver", cps(&case["semver"])), ("pep440", cps(&case["pep440"]))] {
             rep.evaluations += 1;
-            let o = conv(&s, "semver", to);
+            let o = conv(&s, &from, to);
             if o.ok() != Some(want.as_str()) {
-                let k = if matches!(o, Outcome::Panic(_)) { "C07:panic" } else { "C07:semver-to-zerv" };
+                let k = if matches!(o, Outcome::Panic(_)) { "C07:panic" } else if from == "semver" { "C07:semver-to-zerv" } else { "C07:pep440-to-zerv" };
                 rep.mismatch(k, json!({"input": s, "to": to, "expected": want, "observed": {"kind": o.tag(), "text": o.text()}}));
             }
             if rep.evaluations % 6007 < 2 {
